@@ -258,6 +258,12 @@ def run(ctx):
         want = "successors_vec" if "successor" in b.short else "predecessors_vec"
         ctx.require(want in fields, "R-C03-2", "accessor|" + b.short, "%s returns a reference into `%s`" % (b.short.split("::")[-1], want), "%s does not return `%s` (returns from %s)" % (b.short, want, sorted(x for x in fields if x)), loc_str(b.span))
 
+    # R-C03-8: get_neighbor_nodes is a reviewed consumer of the raw rows BECAUSE it removes the repetitions an undirected
+    # self-loop leaves there; the reason is a rule (shared with C02)
+    from props.c02 import rule11 as _raw_rows_deduplicated
+
+    _raw_rows_deduplicated(ctx, prog, flows, "R-C03-8")
+
     # ------------------------------------------------------------------ R-C03-3
     ctx.rule("R-C03-3", "the decision to replace a cached weight depends on specs.multi_edges and on a test separating KeepLast from KeepFirst")
     hf = flows.of(helper)
